@@ -176,7 +176,12 @@ def key_function_rule(rep, prog, cfg, type_name, as_str_name, trait, method, cmp
                         problems.append("operand %d of the name comparison comes from parameter %s, expected %s: the order of two tags is "
                                         "the reverse of the order of their protocol names" % (ai, sorted(psrc), sorted(want)))
             if method != "hash":
-                leaves, _ = fl.sources([0], through_call=identity_through)
+                def thr(t2, kind=None):
+                    # `.reverse()` of the comparison is still the comparison (its direction is checked above)
+                    if any(n.endswith("Ordering::reverse") for n in callee_names(t2)):
+                        return (0,)
+                    return identity_through(t2, kind)
+                leaves, _ = fl.sources([0], through_call=thr)
                 if ("call", bb) not in leaves:
                     problems.append("the result does not derive from the comparison of the names")
     rep.check(not problems, rule, inst, where,
